@@ -53,6 +53,9 @@ class FInt:
                 raise CannotDecide("division by an interval containing zero")
             ps = [x / y for x in a for y in b]
             return FInt(min(ps), max(ps))
+        if op is ast.FloorDiv and b[0] == b[1] and b[0] > 0:
+            import math
+            return FInt(math.floor(a[0] / b[0]), math.floor(a[1] / b[0]))
         if op is ast.Mod and b[0] == b[1] and b[0] > 0:
             m = b[0]
             k0, k1 = a[0] // m, a[1] // m
